@@ -313,7 +313,7 @@ def run_lines(cmd, lines, timeout=600):
 def check(run, replay=None):
     tier, seed = run.tier, run.seed
     rng = random.Random(seed * 7919 + 6)
-    C.standard_coq_phase(run, CID)
+    C.standard_coq_phase(run, CID, gens=("slice",))
     ok, msg = C.ensure_ocaml()
     if not ok:
         run.finding("build:ocaml", "broken-obligation", msg, {})
